@@ -36,6 +36,7 @@ Inductive pcase :=
 | PDir (s out : string)
 | PExt (s out : string)
 | PAbs (cwd s out : string)
+| PRel (b t : string) (out : option string)
 | PSanitize (base p : string) (out : option string)
 | PSanitizeArchive (d t : string) (out : option string)
 | PEtag (hdr : option (list string)) (out : option string)
@@ -67,6 +68,7 @@ Definition check_path (c : pcase) : list string :=
   | PDir s out => tag_if (negb (str_eqs (dir (la s)) out)) "mismatch:dir"
   | PExt s out => tag_if (negb (str_eqs (ext (la s)) out)) "mismatch:ext"
   | PAbs cwd s out => tag_if (negb (str_eqs (abs (la cwd) (la s)) out)) "mismatch:abs"
+  | PRel b t out => tag_if (negb (ostr_eqs (rel_string (la b) (la t)) out)) "mismatch:rel"
   | PSanitize b p out =>
       tag_if (negb (ostr_eqs (sanitize_path (la b) (la p)) out)) "mismatch:sanitize-path" ++
       match out with
@@ -185,10 +187,9 @@ Definition explain (b : str) (ops : list dop) (x : str) : string :=
   then "viol:dirfs-unchecked-path"
   else if existsb (fun o => match o with
                             | OLink old _ =>
-                                match link_target b (la old) with
-                                | Some t => negb (underb b t) && str_eqb (clean t) (clean x)
-                                | None => false
-                                end
+                                (* the hard-link source lies outside the base and is the changed file *)
+                                let t := clean (join [b; la old]) in
+                                negb (underb b t) && str_eqb t (clean x)
                             | _ => false end) ops
   then "viol:dirfs-link-sibling-prefix"
   else if existsb (fun o => underb b (lex_path b o) &&
@@ -225,23 +226,25 @@ Record ccase := {
   q_changed : list string
 }.
 
+(* where the cache transport works for this request, computed lexically and
+   independently of the containment test: Dir of the ETag file of the joined path *)
+Definition cache_work_file (root ustr path : str) : str :=
+  clean (join [root; qescape ustr; base (dir path); base path]).
+
 Definition check_cache (c : ccase) : list string :=
   let roots := map la (q_roots c) in
   let esc := escapes roots (map la (q_changed c)) in
   match esc with
   | [] => []
   | _ =>
-    match cache_path_from_url (la (q_root c)) (la (q_ustr c)) (la (q_path c)) with
-    | Some f =>
-        match etag_from_response (option_map (map la) (q_etag c)) with
-        | Some e =>
-            match cache_file_from_etag (la "/") f e with
-            | Some g =>
-                if forallb (fun x => str_eqb (dir x) (dir g)) esc
-                then (if str_eqb f (clean (la (q_root c))) then ["viol:cache-path-is-root"] else ["viol:cache-escape-unexplained"])
-                else ["viol:cache-escape-unexplained"]
-            | None => ["viol:cache-escape-unexplained"]
-            end
+    let f := cache_work_file (la (q_root c)) (la (q_ustr c)) (la (q_path c)) in
+    match etag_from_response (option_map (map la) (q_etag c)) with
+    | Some e =>
+        match cache_file_from_etag (la "/") f e with
+        | Some g =>
+            if forallb (fun x => str_eqb (dir x) (dir g)) esc
+            then (if str_eqb f (clean (la (q_root c))) then ["viol:cache-path-is-root"] else ["viol:cache-escape-unexplained"])
+            else ["viol:cache-escape-unexplained"]
         | None => ["viol:cache-escape-unexplained"]
         end
     | None => ["viol:cache-escape-unexplained"]
